@@ -1,4 +1,5 @@
 import Ruint.Lemmas.Shift
+import Ruint.Lemmas.GenShift
 
 /-!
 # C05 — shifts and rotations move bits exactly and report lost bits exactly
@@ -401,5 +402,32 @@ theorem shl_testBit (bits : ℕ) (a : List ℕ) (s i : ℕ) (ha : Canon bits a) 
 theorem shr_testBit (bits : ℕ) (a : List ℕ) (s i : ℕ) (ha : Canon bits a) :
     (val (wrappingShr bits a s)).testBit i = (val a).testBit (i + s) := by
   rw [(wrapping_shr_spec bits a s ha).2, Nat.testBit_div_two_pow]
+
+/-! ## Whole-method tie to the source (G)
+
+`Ruint.Gen.uint_overflowing_shl`, `uint_overflowing_shr` and `uint_apply_mask` are regenerated from `src/bits.rs` /
+`src/lib.rs` by `tools/rs2lean.py` on every run — the complete methods: the `(limbs, bits)` split, the early return
+with `self != Self::ZERO`, the limb loop with the indexed store `r.limbs[i + limbs]` (resp. the downward walk
+`LIMBS - 1 - i`), the carry recurrence with its two-step shift, the lost-bit loop over the limbs moved out whole, the
+`> Self::MASK` test and `apply_mask`. They are proved equal to the model for every width and every shift amount, so
+the theorems above are theorems about what the source says now. The driver executes the generated methods. -/
+
+/-- **`Uint::overflowing_shl` as generated from the source** = the model (all widths, all amounts). -/
+theorem gen_overflowing_shl_eq (bits : ℕ) (hN : nlimbs bits < 2 ^ 64) (a : List ℕ) (ha : Canon bits a) (s f : ℕ)
+    (hf : nlimbs bits < f) :
+    Ruint.Gen.uint_overflowing_shl f bits (nlimbs bits) a s = overflowingShl bits a s :=
+  Ruint.GenShift.overflowing_shl_eq bits hN a ha.1 ha.2.1 s f hf
+
+/-- **`Uint::overflowing_shr` as generated from the source** = the model (all widths, all amounts). -/
+theorem gen_overflowing_shr_eq (bits : ℕ) (hN : nlimbs bits < 2 ^ 64) (a : List ℕ) (ha : Canon bits a) (s f : ℕ)
+    (hf : nlimbs bits < f) :
+    Ruint.Gen.uint_overflowing_shr f bits (nlimbs bits) a s = overflowingShr bits a s :=
+  Ruint.GenShift.overflowing_shr_eq bits hN a ha.1 s f hf
+
+/-- `apply_mask` as generated from `src/lib.rs` = the model's `maskTop`. -/
+theorem gen_apply_mask_eq (bits : ℕ) (hb : 0 < bits) (hN : nlimbs bits < 2 ^ 64) (l : List ℕ)
+    (hl : l.length = nlimbs bits) (hw : AllLt l) :
+    Ruint.Gen.uint_apply_mask bits (nlimbs bits) l = maskTop bits l :=
+  Ruint.GenShift.apply_mask_eq bits hb hN l hl hw
 
 end Ruint.C05
